@@ -33,7 +33,7 @@ literally).
 Tags on INPUT contigs.  "Untagged" is said of the Pretext map; the input assembly is any assembly, and one legal input is
 the AGP this tool wrote in an earlier curation round (`--assembly` accepts AGP; columns 10.. of a component line are its
 tags).  That file carries tags on some contigs: every contig cut in the earlier round is tagged Cut followed by the tags
-the curator had put on that piece (Cut Unloc, Cut Haplotig, Cut Contaminant, Cut FalseDuplicate, Cut Singleton), and tags
+the curator had put on that piece (Cut Unloc, Cut Haplotig, Cut Contaminant, Cut FalseDuplicate, Cut Singleton, Cut X), and tags
 read from an older input are passed on unchanged.  An unedited map over such an input has no tag of its own, so the
 statement asks for the same result as without them: every scaffold - present in the map or shorter than a texel and absent -
 in the primary output under its own name, no other assembly.  The `tags` families put these tag sets on contigs of absent
@@ -259,11 +259,15 @@ def cli_problems(case):
 # What an AGP written by an earlier curation round carries on a contig: Cut (the contig was cut), followed by the tags of
 # the Pretext piece it was cut for; and the same words alone (tags are passed on from input to output unchanged).
 # NOT generated (the unchanged tree violates the statement for them; reported, not yet recorded): a haplotype's name
-# (Cut Hap2 -> an extra assembly Hap2), Target (every other absent scaffold becomes a contaminant), Primary (TaggingError).
+# (Cut Hap2 -> an extra assembly Hap2), Target (every other absent scaffold becomes a contaminant), Primary (TaggingError),
+# two different chromosome names on contigs of one absent scaffold (TaggingError).
 INPUT_TAG_SETS = (
     ("Cut",), ("Cut", "Unloc"), ("Cut", "Haplotig"), ("Cut", "Contaminant"), ("Cut", "FalseDuplicate"), ("Cut", "Singleton"),
     ("Unloc",), ("Haplotig",), ("Contaminant",), ("FalseDuplicate",), ("Singleton",), ("Unloc", "Cut"), ("Cut", "Cut"),
+    # the piece was cut for a chromosome the curator had named: Cut + the name tag (an upper-case letter, digits)
+    ("Cut", "X"), ("Cut", "B1"), ("W",), ("Cut", "Unloc", "Z"),
 )
+N_PLAIN_TAG_SETS = 13  # the sets in front of the chromosome-name ones (a scaffold gets at most one chromosome name: seeded family)
 TAG_PLACES = ("absent_first", "absent_all", "present_last", "every_contig", "first_of_each")
 
 
@@ -808,9 +812,10 @@ def run(tier, seed, **opts):
                 lt[-1] = rng.choice([x for x in pg.LENGTHS if x >= bpt][:2])
             gaps = [rng.choice(pg.GAP_CHOICES) for _ in range(nc - 1)]
             sc = pg.make_scaffold(f"scaffold_{si + 1}", lt, [rng.choice((1, -1)) for _ in range(nc)], gaps, rng.choice(namings), tag=str(si + 1))
+            choices = INPUT_TAG_SETS[:N_PLAIN_TAG_SETS] + (rng.choice(INPUT_TAG_SETS[N_PLAIN_TAG_SETS:]),) * 3
             for r in sc["rows"]:
                 if r[0] == "F" and rng.random() < share:
-                    r[5] = list(rng.choice(INPUT_TAG_SETS))
+                    r[5] = list(rng.choice(choices))
             inp.append(sc)
         if not in_domain(inp, bpt):
             stats["skipped_outside_domain"] += 1
@@ -831,7 +836,7 @@ def run(tier, seed, **opts):
             "3 (quick) / 6 (thorough) gap kinds), runs of 1-3 gap rows in front of the first / behind the last contig, seeded inputs of 1-4 scaffolds x <= 4 "
             "contigs with runs of 0-3 gap rows, x 4 texel sizes x floor/ceil x painted/unpainted; every 7th all-painted case asked twice for its output, "
             f"{stats['cli']} all-painted cases run twice through the command line with --autosome-prefix chr/SUPER_/CHR_/Super; "
-            f"tags on input contigs: {len(INPUT_TAG_SETS)} tag sets (Cut alone, Cut + Unloc / Haplotig / Contaminant / FalseDuplicate / Singleton, these words alone) on the first / every contig of "
+            f"tags on input contigs: {len(INPUT_TAG_SETS)} tag sets (Cut alone, Cut + Unloc / Haplotig / Contaminant / FalseDuplicate / Singleton, these words alone, Cut + a chromosome name tag) on the first / every contig of "
             "the sub-texel scaffolds, the last contig of the placed ones, every contig, the first of each scaffold, of two enumerated inputs and of seeded inputs of 2-8 scaffolds, "
             f"input given as objects or as AGP text with tag columns, {stats['cli_unpainted']} unpainted cases of them also through the command line; " + ", ".join(f"{k}={v}" for k, v in stats.items())
         ),
